@@ -32,7 +32,8 @@ structure Live (c : Ctx) (sA sB sK : St D) : Prop where
 /-- the rerun sees the canonical cached state -/
 structure Pers (c : Ctx) (Kfin sA : St D) : Prop where
   env : ∀ v, c.persists v = true → sA.env v = Kfin.env v
-  heap : ∀ l, c.cloc l = true → sA.heap l = Kfin.heap l
+  /-- every cached buffer the rerun can reach holds the canonical content -/
+  heap : ∀ v r, sA.env v = some r → c.cloc r.loc = true → sA.heap r.loc = Kfin.heap r.loc
 
 def R (c : Ctx) (Kfin sA sB sK : St D) : Prop :=
   sA.err = sB.err ∧ Pers c Kfin sA ∧ (sA.err = none → Live c sA sB sK)
@@ -95,8 +96,8 @@ theorem nloc_ncloc {c : Ctx} {l : Loc} (h : c.nloc l = true) : c.cloc l = false 
   simpa [Ctx.nloc] using h
 
 theorem readAB (c : Ctx) (hc : classesOK c = true) {Kfin sA sB sK : St D} {Wl : List Loc} {Wv : List Var}
-    (hP : Pers c Kfin sA) (hL : Live c sA sB sK) (hF : Fut c Kfin Wl Wv sK) {u : Var}
-    (hu : readRerun c Wl Wv u = true) :
+    (hP : Pers c Kfin sA) (hL : Live c sA sB sK) (hF : Fut c Kfin Wl Wv sK) {Dv : List Var} {u : Var}
+    (hu : readRerun c Dv Wl Wv u = true) :
     SeeSame sA sB u ∧ refSimAB c (sA.env u) (sB.env u) := by
   unfold readRerun at hu
   simp only [Bool.and_eq_true, Bool.or_eq_true, List.all_eq_true, Bool.not_eq_true', List.contains_eq_mem,
@@ -104,10 +105,11 @@ theorem readAB (c : Ctx) (hc : classesOK c = true) {Kfin sA sB sK : St D} {Wl : 
   obtain ⟨hcls, hfin⟩ := hu
   -- similarity of the bindings
   have hsim : refSimAB c (sA.env u) (sB.env u) := by
-    rcases hcls with (hns | hsh) | ⟨⟨hsc, hp⟩, hw⟩
+    rcases hcls with (hns | hsh) | ⟨⟨hsc', hp⟩, hw⟩
     · exact hL.eAB u (Or.inl hns)
     · exact hL.eAB u (Or.inr hsh)
-    · have h1 := hP.env u (by simpa [Ctx.persists] using hp)
+    · have hsc : u ∈ c.sk ∨ u ∈ c.consts := hsc'.elim (fun h => Or.inl h.1) Or.inr
+      have h1 := hP.env u (by simpa [Ctx.persists] using hp)
       have h2 := hL.eBK u (hsc.elim Or.inl (fun h => Or.inr (Or.inr h)))
       have h3 := hF.env u hsc hw
       rw [h1, h2]
@@ -145,7 +147,7 @@ theorem readAB (c : Ctx) (hc : classesOK c = true) {Kfin sA sB sK : St D} {Wl : 
       rcases this with h | h
       · rw [hcl] at h; cases h
       · exact h
-    rw [hP.heap _ hcl, ← hF.heap _ hcl hnw, ← hL.hBK _ (Or.inl hcl)]
+    rw [hP.heap u ra ha hcl, ← hF.heap _ hcl hnw, ← hL.hBK _ (Or.inl hcl)]
 
 theorem readBK (c : Ctx) {sA sB sK : St D} (hL : Live c sA sB sK) {Dv : List Var} {u : Var}
     (hu : readCache c Dv u = true) : SeeSame sB sK u ∧ sB.env u = sK.env u := by
@@ -184,6 +186,7 @@ theorem AB_eff (c : Ctx) (k : Classes c) {Kfin sA sB : St D} (eA eB : Eff D)
     (eAB : ∀ v, v ∈ c.ns ∨ v ∈ c.sh → refSimAB c (sA.env v) (sB.env v))
     (herr : eA.err = eB.err) (hheap : eA.heapUpd = eB.heapUpd) (henv : UpdAB c eA.envUpd eB.envUpd)
     (hloc : ∀ l d, eA.heapUpd = some (l, d) → c.cloc l = false)
+    (hnew : ∀ x r, eA.envUpd = some (x, r) → c.cloc r.loc = true → sA.heap r.loc = Kfin.heap r.loc)
     (herrA : sA.err = none) (herrB : sB.err = none) :
     (applyEff sA eA).err = (applyEff sB eB).err ∧ Pers c Kfin (applyEff sA eA) ∧
     ((applyEff sA eA).err = none →
@@ -209,16 +212,24 @@ theorem AB_eff (c : Ctx) (k : Classes c) {Kfin sA sB : St D} (eA eB : Eff D)
         · exact hP.env v hv
       · exact hP.env v hv
       · exact hP.env v hv
-    · intro l hl
-      rw [applyEff_heap]
-      cases he : eA.err <;> cases hu : eA.heapUpd <;> simp only
-      · exact hP.heap l hl
-      · rename_i p; obtain ⟨l', d⟩ := p
-        split
-        · next e => subst e; rw [hloc l d hu] at hl; cases hl
-        · exact hP.heap l hl
-      · exact hP.heap l hl
-      · exact hP.heap l hl
+    · intro v r hv hcl
+      have hh : (applyEff sA eA).heap r.loc = sA.heap r.loc := by
+        apply applyEff_heap_frame
+        intro l' d hu e
+        have := hloc l' d hu
+        rw [← e, hcl] at this
+        cases this
+      rw [hh]
+      rw [applyEff_env] at hv
+      cases he : eA.err <;> cases hu : eA.envUpd <;> simp only [he, hu] at hv
+      · exact hP.heap v r hv hcl
+      · rename_i p; obtain ⟨x, r1⟩ := p
+        simp only at hv
+        split at hv
+        · cases hv; exact hnew x r hu hcl
+        · exact hP.heap v r hv hcl
+      · exact hP.heap v r hv hcl
+      · exact hP.heap v r hv hcl
   · intro hok
     rw [applyEff_err] at hok
     have heA : eA.err = none := by
@@ -304,20 +315,6 @@ theorem effB_AB (I : Interp D) (args : Args D) (c : Ctx) (k : Classes c) {sA sB 
       · exact (nloc_ncloc (k.nloc_of_ns h)).1
       · exact k.ncloc_of_sh h
     · exact (nloc_ncloc (hwr dst op srcs hb _ (oA dst r hr))).1
-
-theorem applyEff_env_frame (st : St D) (e : Eff D) (v : Var) (h : ∀ x r, e.envUpd = some (x, r) → v ≠ x) :
-    (applyEff st e).env v = st.env v := by
-  rw [applyEff_env]
-  cases e.err <;> cases hu : e.envUpd <;> simp only
-  rename_i p; obtain ⟨x, r⟩ := p
-  simp [h x r hu]
-
-theorem applyEff_heap_frame (st : St D) (e : Eff D) (l : Loc) (h : ∀ l' d, e.heapUpd = some (l', d) → l ≠ l') :
-    (applyEff st e).heap l = st.heap l := by
-  rw [applyEff_heap]
-  cases e.err <;> cases hu : e.heapUpd <;> simp only
-  rename_i p; obtain ⟨l', d⟩ := p
-  simp [h l' d hu]
 
 theorem updSim_eq (b : Basic) (s1 s2 : St D) (u1 u2 : Option (Var × Ref)) (h : UpdSim b s1 s2 u1 u2)
     (he : ∀ u ∈ b.reads, s1.env u = s2.env u) : u1 = u2 := by
